@@ -67,9 +67,10 @@ def run_tests(tests, repo='/repo', tier='quick', seed=0, timeout=3600):
         cached = {}
         if os.path.exists(cache_file) and os.environ.get('VERIF_NO_CACHE') != '1':
             cached = json.load(open(cache_file))
+        cached = {k: v for k, v in cached.items() if v.get('status') in ('success', 'failed')}
         todo = [t for t in tests if t not in cached]
         if todo:
-            scratch = os.path.join(os.environ.get('TMPDIR', '/tmp'), 'grenad-verif-native')
+            scratch = os.path.join(os.environ.get('TMPDIR', '/tmp'), 'grenad-verif-native-%s' % hashlib.md5(VERIF.encode()).hexdigest()[:8])
             make_scratch(repo, scratch)
             env = dict(os.environ)
             env['CARGO_NET_OFFLINE'] = 'true'
